@@ -181,9 +181,9 @@ func allProps() []PropSpec {
 		{
 			ID: "C20",
 			Harnesses: []HarnessSpec{
-				{Func: "ZZ_C20_H1", Pkg: "internal/tagexpr", Quick: map[string]int{"K": 2}, Thorough: map[string]int{"K": 3}, Covers: []string{"reached-assert", "bool-result", "nan-result"}, MaxSteps: 4000000},
+				{Func: "ZZ_C20_H1", Pkg: "internal/tagexpr", Quick: map[string]int{"K": 2}, Thorough: map[string]int{"K": 3}, Covers: []string{"reached-assert", "bool-result", "nan-result", "unspecified-value-evaluated"}, MaxSteps: 4000000},
 				{Func: "ZZ_C20_H2", Pkg: "internal/tagexpr", Quick: map[string]int{"K": 2}, Thorough: map[string]int{"K": 3}, Covers: []string{"reached-assert", "found"}, MaxSteps: 4000000, Note: "precedence inside function arguments: in(<chain>, c), !in(...), len('..') as an arithmetic operand"},
-				{Func: "ZZ_C20_H3", Pkg: "internal/tagexpr", Covers: []string{"reached-assert", "nil-field"}, MaxSteps: 4000000, Note: "field references $ / (F)$ with !, !! against boolean literals; field value injected through the interpreter's field table: nil, 0, 1, 7, true, false, '', 'ab'"},
+				{Func: "ZZ_C20_H3", Pkg: "internal/tagexpr", Covers: []string{"reached-assert", "nil-field", "slice-field"}, MaxSteps: 4000000, Note: "field references $ / (F)$ with !, !! against boolean literals; field value injected through the interpreter's field table: nil, 0, 1, 7, true, false, '', 'ab', empty and non-empty []int (compared with itself)"},
 			},
 			Assumptions: []string{"parser/evaluator kernel: literal operands (H1), in()/len() with literal arguments (H2), current-field references whose value is injected through the field table (H3); reflect-based struct walking, sub-selectors, maps/slices, regexp() and the validator front end are outside", "well-typed chains only (ill-typed ones are assumed away)", "operands from {0,1,2,3,7}; one optional parenthesised group; spellings with single spaces or none (no '+'/'-' without spaces)", "Go's regexp package is executed from SSA for the literal lexers; reflect.ValueOf/Kind are modelled for basic kinds"},
 		},
